@@ -1255,6 +1255,11 @@ func (g *Gen) exit() {
 		g.setHeap(st, lv.GKind, "(store "+g.heap(st, lv.GKind)+" "+lv.Addr+" "+t+")")
 	}
 	env := g.envFor(vars, st, g.old)
+	if g.con.Trusted && g.con.ArgsOnly {
+		// a trusted contract whose call-site assertions are checked (argsonly): postconditions and frame stay
+		// assumptions for the callers, nothing about them is proved here
+		return
+	}
 	for i, c := range g.con.Ensures {
 		if c.Unproved {
 			continue
